@@ -197,7 +197,10 @@ def w_op(req, op):
 
 def run_wsgi(ct, chunks, ops):
     inp = ScriptedInput(chunks)
+    # a real server announces the body length; the code reads wsgi.input to EOF and must not let the
+    # announcement (correct here) or short reads cut the body short
     environ = {"REQUEST_METHOD": "POST", "CONTENT_TYPE": CTS[ct], "wsgi.input": inp,
+               "CONTENT_LENGTH": str(sum(len(c) for c in chunks)),
                "PATH_INFO": "/", "QUERY_STRING": "", "SERVER_NAME": "t", "SERVER_PORT": "80",
                "wsgi.url_scheme": "http"}
     req = wsgi_requests.Request(environ)
